@@ -216,7 +216,8 @@ def targeted(ctx):
         add(f'redrill+components-eu{eu}', REDRILL + [('Well Drilling and Completion Capital Cost', 17.3), ('Reservoir Stimulation Capital Cost', 3.9)],
             drop=['Total Capital Cost', 'Total O&M Cost'], enduse=eu, plant=pl, econ=1 + (j + 2) % 3)
     for j, pl in enumerate(configs.HEAT_PLANTS if ctx.quick else configs.HEAT_PLANTS * 2):
-        if pl == 7 and ctx.quick:
+        if pl == 7 and ctx.quick:     # district heating costs 5-10 s a run: one targeted run in the quick tier
+            add('components-plant7', [], drop=COST_INPUTS, enduse=2, plant=7, econ=2, life=5, tspy=2)
             continue
         add(f'oamfixed-plant{pl}', [('Total O&M Cost', 1.85 + j)], drop=['Total Capital Cost'], enduse=2, plant=pl, econ=1 + j % 3)
         add(f'components-plant{pl}', [], drop=COST_INPUTS, enduse=2, plant=pl, econ=1 + (j + 1) % 3)
@@ -302,8 +303,8 @@ def check_run(ctx, spec, nodes, name, text, r, col, stats):
     if snap is None or r['report'] is None:      # the simulator rejected the input (or failed) before any report existed
         stats['rejected'] += 1
         stats['rejected:' + name.split('-')[0].split(':')[0]] += 1
-        if name.startswith('target:'):
-            ctx.note(f'targeted configuration {name} was rejected by the simulator: {str(r["error"])[:120]}')
+        if stats['rejected'] <= 8:
+            ctx.note(f'input {name} was rejected by the simulator: {str(r["error"])[:120]}')
         return None
     if not r['ok']:
         stats['runs_ending_in_an_error_after_calculate'] += 1
